@@ -181,6 +181,10 @@ def step (_ : Unit) (ws : List String) : Unit × String :=
   | ["ua-dec", h] => dec? h decUA hexOrDash
   | "pf-enc" :: r => enc? (pf? r) encPF
   | ["pf-dec", h] => dec? h decPF showPF
+  | ["xst-enc", "conf"] => encOut (.ok (encXst .conf))
+  | ["xst-enc", "fail", m] => enc? (fromHex m) (fun m => .ok (encXst (.fail m)))
+  | ["xst-dec", h] => dec? h decXst (fun s => match s with | .conf => "conf" | .fail m => "fail:" ++ hexOrDash m)
+  | ["junk", "xst", h] => junk? h rdXst
   | ["junk", "str", h] => junk? h rdStr
   | ["junk", "intent", h] => junk? h rdIntent
   | ["junk", "ag", h] => junk? h rdAg
